@@ -89,6 +89,8 @@ type ecOp struct {
 	sets      []*ecCookie
 	vals      []string
 	fail      bool
+	dup       bool   // the handler sets the first cookie twice (other path first): the later call replaces the earlier
+	path      string // "/set" or "/refresh"
 	seen      map[string]string
 	encFailed bool            // an injected Encryptor error fired in this request
 	decFailed map[string]bool // values for which an injected Decryptor error fired
@@ -97,6 +99,7 @@ type ecOp struct {
 type ecPlan struct {
 	failAfterSet bool
 	reissue      bool
+	refresh      bool
 	sweep        bool
 	nsteps       int
 	stepKinds    []string
@@ -266,12 +269,23 @@ func (env *ecEnv) mkApp(k string, wrap bool) *fiber.App {
 	app.Post("/set", func(c fiber.Ctx) error {
 		op := env.ops[atoi(c.Get("X-Op"))]
 		for i, ck := range op.sets {
+			if op.dup && i == 0 {
+				c.Cookie(&fiber.Cookie{Name: ck.name, Value: op.vals[i], Path: "/elsewhere"})
+			}
 			c.Cookie(&fiber.Cookie{Name: ck.name, Value: op.vals[i], Path: "/", HTTPOnly: ck.httpOnly, MaxAge: ck.maxAge})
 		}
 		if op.fail {
 			return fiber.NewError(fiber.StatusInternalServerError, "handler failed after setting cookies")
 		}
 		return c.SendString("set")
+	})
+	// sliding expiry: every cookie the request carried is set again with the value the handler was given
+	app.Post("/refresh", func(c fiber.Ctx) error {
+		op := env.ops[atoi(c.Get("X-Op"))]
+		for _, ck := range op.sets {
+			c.Cookie(&fiber.Cookie{Name: ck.name, Value: c.Cookies(ck.name), Path: "/", HTTPOnly: ck.httpOnly, MaxAge: ck.maxAge})
+		}
+		return c.SendString("refreshed")
 	})
 	app.Get("/get", func(c fiber.Ctx) error {
 		op := env.ops[atoi(c.Get("X-Op"))]
@@ -309,7 +323,7 @@ func (cl *ecClient) genValue(i int) (string, string) {
 }
 
 func (cl *ecClient) setAll(list []*ecCookie, fail bool) *ecOp {
-	op := &ecOp{cl: cl, sets: list, fail: fail}
+	op := &ecOp{cl: cl, sets: list, fail: fail, path: "/set", dup: cl.s.Chance(150)}
 	for _, c := range list {
 		op.vals = append(op.vals, c.plain)
 	}
@@ -394,15 +408,26 @@ func (cl *ecClient) wire(resp *harness.Resp, own []*ecCookie, label string) {
 
 // issue: POST /set on an app, store the response in the browser, check the wire.
 func (cl *ecClient) issue(conn **harness.Conn, list []*ecCookie, fail bool, current bool, label string) bool {
+	return cl.issueAt("/set", conn, list, fail, current, label)
+}
+
+func (cl *ecClient) issueAt(path string, conn **harness.Conn, list []*ecCookie, fail bool, current bool, label string) bool {
 	s, b := cl.s, cl.b
 	label = cl.tag + label
 	for attempt := 0; ; attempt++ {
 		op := cl.setAll(list, fail)
-		resp := cl.do(conn, b, "POST", "/set", op)
+		op.path = path
+		resp := cl.do(conn, b, "POST", path, op)
 		if cl.dead {
 			return false
 		}
 		cl.wire(resp, list, label)
+		if path == "/refresh" && len(op.decFailed) > 0 {
+			// an injected Decryptor error during the refresh: the handler was (legitimately) given an empty
+			// value and has set that; this client's cookies are no longer what the plan says
+			s.Logf("%s: Decryptor error injected during the refresh; client ends", label)
+			return false
+		}
 		if op.encFailed {
 			// whatever came back, the cookies count as not issued; the server is asked again
 			s.Logf("%s: Encryptor error injected, response status=%d bytes=%d; asking again", label, resp.Status, len(resp.Raw))
@@ -610,6 +635,14 @@ func (cl *ecClient) run() {
 		return
 	}
 	cl.look("untouched", "none", nil)
+	if cl.plan.refresh {
+		// the handler sets the cookies it was given again (same values): they are issued anew
+		if !cl.issueAt("/refresh", &cl.connCur, cl.cookies, false, true, "refresh (handler re-sets the values it received)") {
+			return
+		}
+		s.Count("probe_cookies_refreshed_with_unchanged_values")
+		cl.look("untouched after refresh", "none", nil)
+	}
 	if cl.plan.reissue {
 		var sub []*ecCookie
 		for i, c := range cl.cookies {
@@ -817,6 +850,7 @@ func enccookieMain(s *simrt.Sim, info *harness.RunInfo) {
 		p := &plans[i]
 		p.failAfterSet = s.Chance(150)
 		p.reissue = s.Chance(300)
+		p.refresh = s.Chance(300)
 		p.sweep = faults && s.Chance(120)
 		p.nsteps = s.Range(1, 6)
 		for j := 0; j < 6; j++ {
